@@ -4,7 +4,6 @@ import (
 	"fmt"
 	"go/ast"
 	"go/token"
-	"sort"
 	"strings"
 
 	"pigeonverif/internal/load"
@@ -25,50 +24,14 @@ func C15(c *Ctx) {
 		return
 	}
 	bp := g.Pkg("builder")
-	fd := load.FuncDecl(bp, "", "BasicLatinLookup")
-	if fd == nil {
-		r.Fatal("builder.BasicLatinLookup not found")
+	model, blfd := c.basicLatinModel()
+	if blfd == nil {
 		return
 	}
-	var params []string
-	for _, f := range fd.Type.Params.List {
-		for _, n := range f.Names {
-			params = append(params, n.Name)
-		}
-	}
-	if len(params) != 4 {
-		r.Unk("C15-a", "G.builder.BasicLatinLookup:signature", "", g.Where(fd.Pos()), "unexpected parameters")
-		return
-	}
-	ic := params[3]
-	for i, src := range params[:3] {
-		var loop ast.Stmt
-		for _, st := range fd.Body.List {
-			switch x := st.(type) {
-			case *ast.RangeStmt:
-				if nospace(x.X) == src {
-					loop = x
-				}
-			case *ast.ForStmt:
-				if x.Cond != nil && strings.Contains(nospace(x.Cond), "len("+src+")") {
-					loop = x
-				}
-			}
-		}
-		construct := "G.builder.BasicLatinLookup:" + []string{"chars", "ranges", "unicodeClasses"}[i] + "-loop-folds-case"
-		if loop == nil {
-			r.Unk("C15-a", construct, "", g.Where(fd.Pos()), "member loop over "+src+" not found")
-			continue
-		}
-		uses := false
-		ast.Inspect(loop, func(n ast.Node) bool {
-			if id, ok := n.(*ast.Ident); ok && id.Name == ic {
-				uses = true
-			}
-			return true
-		})
-		r.Check(uses, "C15-a", construct, "", g.Where(loop.Pos()), "the loop takes "+ic+" into account",
-			"the loop over "+src+" ignores "+ic+": the general path tests the folded rune against these members, the table tests the raw rune ([\\p{Lu}]i matches 'A' only with -optimize-basic-latin)")
+	for _, src := range []string{"chars", "ranges", "unicodeClasses"} {
+		key := src + "-loop-folds-case"
+		r.Check(len(model[key]) == 0 && len(model["signature"]) == 0, "C15-a", "G.builder.BasicLatinLookup:"+key, "", g.Where(blfd.Pos()), "the loop takes ignoreCase into account",
+			strings.Join(uniq(append(model[key], model["signature"]...)), "; ")+": the general path tests the folded rune against these members, the table tests the raw rune ([\\p{Lu}]i matches 'A' only with -optimize-basic-latin)")
 	}
 	basicLatinCaseClosure(c, "C15-a")
 	basicLatinNoSkips(c, "C15-a")
@@ -90,7 +53,7 @@ func C15(c *Ctx) {
 		}
 	}
 	// the members the general path tests are the node's own lists: table and emitted lists come from the same fields
-	builderPairing(c, "C15-c", "writeCharClassMatcher")
+	builderPairingN(c, "C15-c", "writeCharClassMatcher")
 	r.Check(okEmit, "C15-c", "G.builder.writeCharClassMatcher:table-emission", "", "builder/builder.go", "under b.basicLatinLookupTable, from the node's own members and flag", "the table is not emitted exactly under b.basicLatinLookupTable from (Chars, Ranges, UnicodeClasses, IgnoreCase)")
 	// ---- b
 	nB := 0
@@ -184,73 +147,14 @@ func C15(c *Ctx) {
 func basicLatinCaseClosure(c *Ctx, rule string) {
 	r := c.R
 	g := c.G()
-	if g == nil {
-		return
-	}
-	fd := load.FuncDecl(g.Pkg("builder"), "", "BasicLatinLookup")
+	model, fd := c.basicLatinModel()
 	if fd == nil {
-		r.Fatal("builder.BasicLatinLookup not found")
 		return
 	}
-	var params []string
-	for _, f := range fd.Type.Params.List {
-		for _, n := range f.Names {
-			params = append(params, n.Name)
-		}
-	}
-	if len(params) != 4 {
-		return
-	}
-	ic := params[3]
-	for i, src := range params[:2] {
-		var loop ast.Stmt
-		for _, st := range fd.Body.List {
-			switch x := st.(type) {
-			case *ast.RangeStmt:
-				if nospace(x.X) == src {
-					loop = x
-				}
-			case *ast.ForStmt:
-				if x.Cond != nil && strings.Contains(nospace(x.Cond), "len("+src+")") {
-					loop = x
-				}
-			}
-		}
-		construct := "G.builder.BasicLatinLookup:" + []string{"chars", "ranges"}[i] + "-loop-adds-both-cases"
-		if loop == nil {
-			r.Unk(rule, construct, "", g.Where(fd.Pos()), "member loop over "+src+" not found")
-			continue
-		}
-		up, low, raw := false, false, false
-		ast.Inspect(loop, func(n ast.Node) bool {
-			as, ok := n.(*ast.AssignStmt)
-			if !ok || len(as.Lhs) != 1 {
-				return true
-			}
-			ix, ok := as.Lhs[0].(*ast.IndexExpr)
-			if !ok || !strings.HasSuffix(nospace(ix.X), "basicLatinChars") || nospace(as.Rhs[0]) != "true" {
-				return true
-			}
-			underIC := false
-			for _, gd := range guardsOf(loop, as.Pos()) {
-				if gd == ic || strings.HasPrefix(gd, ic+"&&") || strings.Contains(gd, "&&"+ic) {
-					underIC = true
-				}
-			}
-			idx := nospace(ix.Index)
-			switch {
-			case strings.Contains(idx, "unicode.ToUpper("):
-				up = up || underIC
-			case strings.Contains(idx, "unicode.ToLower("):
-				low = low || underIC
-			default:
-				raw = true
-			}
-			return true
-		})
-		ok := raw && up && low
-		r.Check(ok, rule, construct, "", g.Where(loop.Pos()), "the member itself plus, under "+ic+", both its upper-case and lower-case twin",
-			fmt.Sprintf("member stored=%t, upper-case twin under %s=%t, lower-case twin under %s=%t: the raw members are passed in, so a member written in one case lacks its twin in the other ([XYZ]i would not match x with -optimize-basic-latin)", raw, ic, up, ic, low))
+	for _, src := range []string{"chars", "ranges"} {
+		key := src + "-loop-adds-both-cases"
+		r.Check(len(model[key]) == 0, rule, "G.builder.BasicLatinLookup:"+key, "", g.Where(fd.Pos()), "the member itself plus, under ignoreCase, both its upper-case and lower-case twin",
+			strings.Join(uniq(model[key]), "; ")+": the raw members are passed in, so a member written in one case lacks its twin in the other ([XYZ]i would not match x with -optimize-basic-latin)")
 	}
 }
 
@@ -260,89 +164,13 @@ func basicLatinCaseClosure(c *Ctx, rule string) {
 func basicLatinNoSkips(c *Ctx, rule string) {
 	r := c.R
 	g := c.G()
-	if g == nil {
-		return
-	}
-	fd := load.FuncDecl(g.Pkg("builder"), "", "BasicLatinLookup")
+	model, fd := c.basicLatinModel()
 	if fd == nil {
 		return
 	}
-	var params []string
-	for _, f := range fd.Type.Params.List {
-		for _, n := range f.Names {
-			params = append(params, n.Name)
-		}
-	}
-	if len(params) != 4 {
-		return
-	}
-	ic := params[3]
-	allowedGuard := func(gd string) bool {
-		neg := strings.HasPrefix(gd, "!")
-		gd = strings.TrimPrefix(strings.TrimSuffix(strings.TrimPrefix(gd, "!("), ")"), "!")
-		switch {
-		case gd == ic:
-			return true
-		case strings.HasSuffix(gd, "<128"):
-			return !neg
-		case strings.HasPrefix(gd, "unicode.IsLower(") || strings.HasPrefix(gd, "unicode.IsUpper("):
-			return true
-		case strings.HasPrefix(gd, "unicode.Is("):
-			return true
-		}
-		return false
-	}
-	var bad []string
-	nStores := 0
-	for _, st := range fd.Body.List {
-		var loopBody *ast.BlockStmt
-		switch x := st.(type) {
-		case *ast.RangeStmt:
-			loopBody = x.Body
-		case *ast.ForStmt:
-			loopBody = x.Body
-		default:
-			continue
-		}
-		ast.Inspect(loopBody, func(n ast.Node) bool {
-			switch x := n.(type) {
-			case *ast.BranchStmt:
-				bad = append(bad, g.Where(x.Pos())+": `"+x.Tok.String()+"` skips members or runes under ["+strings.Join(guardsOf(loopBody, x.Pos()), ";")+"]")
-			case *ast.ReturnStmt:
-				bad = append(bad, g.Where(x.Pos())+": return inside a member loop")
-			case *ast.ForStmt:
-				// inner rune loops must cover the whole Basic Latin block they are responsible for
-				if x.Cond != nil {
-					cond := nospace(x.Cond)
-					if !(strings.Contains(cond, "<128")) {
-						bad = append(bad, g.Where(x.Pos())+": inner loop bound `"+cond+"` does not run up to 128")
-					}
-				}
-			case *ast.AssignStmt:
-				if ix, ok := x.Lhs[0].(*ast.IndexExpr); ok && strings.HasSuffix(nospace(ix.X), "basicLatinChars") {
-					nStores++
-					for _, gd := range guardsOf(loopBody, x.Pos()) {
-						if !allowedGuard(gd) {
-							bad = append(bad, g.Where(x.Pos())+": table entry stored under the extra condition `"+gd+"`")
-						}
-					}
-				}
-			}
-			return true
-		})
-	}
-	// the class loop starts its rune loop at 0
-	ast.Inspect(fd.Body, func(n ast.Node) bool {
-		if f, ok := n.(*ast.ForStmt); ok && f.Init != nil && f.Cond != nil && nospace(f.Cond) == "r<128" {
-			if as, ok := f.Init.(*ast.AssignStmt); ok && nospace(as.Rhs[0]) != "rune(0)" && nospace(as.Rhs[0]) != "0" {
-				bad = append(bad, g.Where(f.Pos())+": rune loop over the class starts at "+nospace(as.Rhs[0]))
-			}
-		}
-		return true
-	})
-	sort.Strings(bad)
-	r.Check(len(bad) == 0 && nStores >= 6, rule, "G.builder.BasicLatinLookup:decides-all-128-runes-by-membership-only", "", g.Where(fd.Pos()),
-		fmt.Sprintf("%d table stores, guarded only by range/case/membership tests; no skipping", nStores), strings.Join(bad, "; ")+": the general path tests every class with unicode.Is for every rune, so the table may not skip any")
+	key := "decides-all-128-runes-by-membership-only"
+	r.Check(len(model[key]) == 0, rule, "G.builder.BasicLatinLookup:"+key, "", g.Where(fd.Pos()), "table entries are stored under range/case/membership tests only; no skipping",
+		strings.Join(uniq(model[key]), "; ")+": the general path tests every class with unicode.Is for every rune, so the table may not skip any")
 }
 
 // basicLatinSiblingForms: two exact agreements between the table computation and the general path.
@@ -368,7 +196,7 @@ func basicLatinSiblingForms(c *Ctx, rule string) {
 	if len(params) != 4 {
 		return
 	}
-	rangesP, classesP, ic := params[1], params[2], params[3]
+	_ = params
 	// ---- general path (every semantic variant): fold and range test
 	type general struct{ loIncl, hiIncl, ok bool }
 	var gen *general
@@ -431,125 +259,18 @@ func basicLatinSiblingForms(c *Ctx, rule string) {
 		}
 		r.Check(len(bad) == 0, rule, "T.parseCharClassMatcher:general-path-fold-and-range-test", v.Name, v.Where(pf.Pos()), "folds under ignoreCase only, before all member tests; inclusive range test", strings.Join(bad, "; "))
 	}
-	// ---- (1) range loop of the table
-	var rangeLoop *ast.ForStmt
-	var classLoop *ast.RangeStmt
-	for _, st := range fd.Body.List {
-		switch x := st.(type) {
-		case *ast.ForStmt:
-			if x.Cond != nil && strings.Contains(nospace(x.Cond), "len("+rangesP+")") {
-				rangeLoop = x
-			}
-		case *ast.RangeStmt:
-			if nospace(x.X) == classesP {
-				classLoop = x
-			}
-		}
-	}
-	if rangeLoop == nil || gen == nil {
-		r.Unk(rule, "G.builder.BasicLatinLookup:range-bounds-as-general-path", "", g.Where(fd.Pos()), "range loop or general range test not found")
-	} else {
-		var inner *ast.ForStmt
-		ast.Inspect(rangeLoop.Body, func(n ast.Node) bool {
-			if f, ok := n.(*ast.ForStmt); ok && inner == nil {
-				inner = f
-			}
-			return true
-		})
-		okB := false
-		detail := "no inner rune loop"
-		if inner != nil && inner.Init != nil && inner.Cond != nil {
-			init, cond := "", nospace(inner.Cond)
-			if as, ok := inner.Init.(*ast.AssignStmt); ok {
-				init = nospace(as.Rhs[0])
-			}
-			jv := ""
-			if as, ok := inner.Init.(*ast.AssignStmt); ok {
-				jv = nospace(as.Lhs[0])
-			}
-			loIncl := init == rangesP+"[i]"
-			hiIncl := strings.Contains(cond, jv+"<="+rangesP+"[i+1]")
-			hiExcl := strings.Contains(cond, jv+"<"+rangesP+"[i+1]")
-			post := ""
-			if ids, ok := inner.Post.(*ast.IncDecStmt); ok {
-				post = nospace(ids.X) + ids.Tok.String()
-			}
-			okB = loIncl == gen.loIncl && (hiIncl || hiExcl) && hiIncl == gen.hiIncl && post == jv+"++"
-			detail = fmt.Sprintf("the table enumerates runes from %s while `%s` (step %s); the general path tests the range with lower bound inclusive=%t, upper bound inclusive=%t: the end points of a range are decided differently", init, cond, post, gen.loIncl, gen.hiIncl)
-		}
-		r.Check(okB, rule, "G.builder.BasicLatinLookup:range-bounds-as-general-path", "", g.Where(rangeLoop.Pos()), "both ends inclusive on both sides", detail)
-	}
-	// ---- (2) class loop of the table
-	if classLoop == nil || classLoop.Value == nil {
-		r.Unk(rule, "G.builder.BasicLatinLookup:class-decision-as-general-path", "", g.Where(fd.Pos()), "class loop not found")
+	// ---- (1) / (2): the table side, from the model of BasicLatinLookup
+	model, blfd := c.basicLatinModel()
+	if blfd == nil {
 		return
 	}
-	cl := nospace(classLoop.Value)
-	var bad []string
-	rt := ""
-	var inner *ast.ForStmt
-	for _, st := range classLoop.Body.List {
-		switch x := st.(type) {
-		case *ast.AssignStmt:
-			if len(x.Rhs) == 1 && nospace(x.Rhs[0]) == "rangeTable("+cl+")" {
-				rt = nospace(x.Lhs[0])
-			}
-		case *ast.ForStmt:
-			inner = x
-		}
+	inclusive := gen != nil && gen.loIncl && gen.hiIncl
+	k1 := "range-bounds-as-general-path"
+	bad1 := append([]string{}, model[k1]...)
+	if !inclusive {
+		bad1 = append(bad1, "the general path does not test ranges with both ends inclusive (the table enumerates low through high)")
 	}
-	if rt == "" {
-		bad = append(bad, "the class is not resolved with rangeTable("+cl+")")
-	}
-	if inner == nil {
-		bad = append(bad, "no rune loop")
-	} else {
-		rv := ""
-		if as, ok := inner.Init.(*ast.AssignStmt); ok {
-			rv = nospace(as.Lhs[0])
-		}
-		// reaching definitions of the tested rune
-		stores := 0
-		ast.Inspect(inner.Body, func(n ast.Node) bool {
-			as, ok := n.(*ast.AssignStmt)
-			if !ok {
-				return true
-			}
-			ix, ok := as.Lhs[0].(*ast.IndexExpr)
-			if !ok || !strings.HasSuffix(nospace(ix.X), "basicLatinChars") {
-				return true
-			}
-			stores++
-			if nospace(ix.Index) != rv {
-				bad = append(bad, g.Where(as.Pos())+": stores the decision of rune "+rv+" at index "+nospace(ix.Index))
-			}
-			if nospace(as.Rhs[0]) != "true" {
-				bad = append(bad, g.Where(as.Pos())+": stores "+nospace(as.Rhs[0])+" for a member")
-			}
-			gs := guardsOf(inner.Body, as.Pos())
-			if len(gs) != 1 || !strings.HasPrefix(gs[0], "unicode.Is("+rt+",") {
-				bad = append(bad, g.Where(as.Pos())+": membership is decided by ["+strings.Join(gs, ";")+"], expected exactly unicode.Is("+rt+", <folded rune>)")
-				return true
-			}
-			tested := strings.TrimSuffix(strings.TrimPrefix(gs[0], "unicode.Is("+rt+","), ")")
-			// tested must be a local defined as rv and re-assigned unicode.ToLower(rv) exactly under ic
-			var defs []string
-			ast.Inspect(inner.Body, func(m ast.Node) bool {
-				if a2, ok := m.(*ast.AssignStmt); ok && len(a2.Lhs) == 1 && nospace(a2.Lhs[0]) == tested && a2.Pos() < as.Pos() {
-					defs = append(defs, nospace(a2.Rhs[0])+"["+strings.Join(guardsOf(inner.Body, a2.Pos()), ";")+"]")
-				}
-				return true
-			})
-			sort.Strings(defs)
-			if got := strings.Join(defs, " "); got != rv+"[] unicode.ToLower("+rv+")["+ic+"]" {
-				bad = append(bad, g.Where(as.Pos())+": the tested rune "+tested+" is defined as {"+got+"}, expected "+rv+" and, exactly under "+ic+", unicode.ToLower("+rv+") - the fold of the general path")
-			}
-			return true
-		})
-		if stores != 1 {
-			bad = append(bad, fmt.Sprintf("%d table stores in the class loop, expected 1", stores))
-		}
-	}
-	sort.Strings(bad)
-	r.Check(len(bad) == 0, rule, "G.builder.BasicLatinLookup:class-decision-as-general-path", "", g.Where(classLoop.Pos()), "table[r] = unicode.Is(rangeTable(class), ignoreCase ? ToLower(r) : r), as the general path", strings.Join(bad, "; "))
+	r.Check(len(bad1) == 0, rule, "G.builder.BasicLatinLookup:"+k1, "", g.Where(blfd.Pos()), "both ends inclusive on both sides", strings.Join(uniq(bad1), "; "))
+	k2 := "class-decision-as-general-path"
+	r.Check(len(model[k2]) == 0, rule, "G.builder.BasicLatinLookup:"+k2, "", g.Where(blfd.Pos()), "table[r] = unicode.Is(rangeTable(class), ignoreCase ? ToLower(r) : r), as the general path", strings.Join(uniq(model[k2]), "; "))
 }
